@@ -562,6 +562,7 @@ func numberSweepFamily(dom Domain) Family {
 		{-20, 0, 400, 410, 500, 510, 600, 615, 700, 712, 800, 820, 900, 901}, // 7 pairs: the format's maximum for BlueValues
 		{-300, -290, -250, -240, -200, -190, -150, -140, -100, -90},          // 5 pairs: the maximum for OtherBlues
 		{10, -10}, {700, 710, -10, 0}, {1, 2, 3, 4, 5, 6},
+		{-20, 0, 100, 110, 200, 210, 300, 310, 400, 410, 500, 510, 600, 615, 700, 712, 800, 820}, // 9 pairs: more than the format allows; written and read all the same
 	}
 	widths := []float64{0, 1, -1, 107, 108, -107, -108, 1131, 1132, -1131, -1132, 32000, -32000, 65535, 65536, 2147483647, -2147483648, 1000000, 999999}
 	if dom == DomainC08 {
@@ -759,13 +760,16 @@ func infoNumberFamily() Family {
 		{0.001, 0, 0.000212, 0.001, 0, 0},
 		{1, 0, 0, 1, 10, -20},
 		{1e-10, 0, 0, 1e+10, 0, 0},
+		{0, 0, 0, 0, 0, 0},
+		{0.001, 0, 0, 0, 0, 0},
+		{0, 0, 0, 0, 0, 7},
 	}
 	return Family{
 		Name: "info-numbers",
-		N:    5 * 2 * 3 * 3 * 5,
-		Rule: "base font x ItalicAngle {0, -12.5, 1e-7, 123456789, 1e21} x isFixedPitch x UnderlinePosition {0, -100, -75.5} x UnderlineThickness {0, 50, 0.001} x FontMatrix {standard, 1/2000, slanted, identity with translation, 1e-10/1e+10}",
+		N:    5 * 2 * 3 * 3 * 8,
+		Rule: "base font x ItalicAngle {0, -12.5, 1e-7, 123456789, 1e21} x isFixedPitch x UnderlinePosition {0, -100, -75.5} x UnderlineThickness {0, 50, 0.001} x FontMatrix {standard, 1/2000, slanted, identity with translation, 1e-10/1e+10, all zeros, only the first entry non-zero, only the last entry non-zero}",
 		Build: func(i int) *type1.Font {
-			d := radix(i, 5, 2, 3, 3, 5)
+			d := radix(i, 5, 2, 3, 3, 8)
 			f := Base()
 			f.ItalicAngle = italic[d[0]]
 			f.IsFixedPitch = d[1] == 1
@@ -932,6 +936,40 @@ func curveFormsFamily() Family {
 	}
 }
 
+// curveGridFamily: every coincidence between the coordinates of a curve's four
+// points.  Which of the three curve operators the writer may use depends on
+// equalities (first control point level with / straight above the start, end
+// point level with / straight above the second control point); the grid makes
+// every combination of equalities and inequalities occur, including the ones
+// that look like a special form and are not.
+func curveGridFamily() Family {
+	offs := []float64{0, 50, -30}
+	return Family{
+		Name: "curve-coincidence-grid",
+		N:    81,
+		Rule: "item = (offset of the first control point from the start point, offset of the second control point) from {0, 50, -30}^4; glyph A holds nine curves, one for every offset of the end point from {0, 50, -30}^2 (all 729 combinations of equal / unequal x and y among the four points, relative to a start point that moves), each followed by a line",
+		Build: func(i int) *type1.Font {
+			d := radix(i, 3, 3, 3, 3)
+			f := Base()
+			g := f.Glyphs["A"]
+			g.Cmds = nil
+			g.HStem, g.VStem = nil, nil
+			x, y := 100.0, 60.0
+			g.MoveTo(x, y)
+			for e := 0; e < 9; e++ {
+				x1, y1 := x+offs[d[0]], y+offs[d[1]]
+				x2, y2 := x+offs[d[2]], y+offs[d[3]]
+				x3, y3 := x+offs[e%3], y+offs[e/3]
+				g.CurveTo(x1, y1, x2, y2, x3, y3)
+				x, y = x3+11, y3+7
+				g.LineTo(x, y)
+			}
+			g.ClosePath()
+			return f
+		},
+	}
+}
+
 // big fonts ---------------------------------------------------------------------
 
 // bigFontFamily: fonts whose encrypted portion exceeds 64 KiB (PFB segment
@@ -993,6 +1031,7 @@ func Families(tier string, dom Domain) []Family {
 		dateFamily(),
 		manyGlyphsFamily(),
 		curveFormsFamily(),
+		curveGridFamily(),
 		bigFontFamily(),
 		numberSweepFamily(dom),
 		alignmentFamily(),
